@@ -16,9 +16,12 @@ GRAMMARS = {
     'chain': ("start::Leafy::Mid::Root: x=/[ab]/ more=[sub] ;\nsub::Mid::Root: y=/[ab]/ ;\n", {'start': ('Leafy', ['Mid', 'Root']), 'sub': ('Mid', ['Root'])}),
     'mixed': ("start::Top: head=plain rest+={node}* ;\nplain: /[a-b]/ ;\nnode::Nd: '-' val=plain kids+={node} ;\n", {'start': ('Top', []), 'node': ('Nd', [])}),
     'override': ("start::Outer: inner=wrapped ;\nwrapped: '(' @:core ')' | core ;\ncore::Core: c=/[ab]/ ;\n", {'start': ('Outer', []), 'core': ('Core', [])}),
+    # nodes inside lists whose FIRST element is a plain token, and a typed rule without names that starts with a literal
+    'token_first_lists': ("start::Top: first=item rest+={ ',' item } ;\nitem::Item: /[ab]/ ;\n", {'start': ('Top', []), 'item': ('Item', [])}),
+    'literal_first_noname': ("start::Grp: '[' {item} ']' ;\nitem::Item: /[ab]/ ;\n", {'start': ('Grp', []), 'item': ('Item', [])}),
     'builtin': ("start::Num: n=num rest=[word] ;\nnum::int: /[0-9]+/ ;\nword::str: /[a-z]+/ ;\n", {'start': ('Num', [])}),
 }
-WARM = ['', 'a', 'a1', 'a1b', 'ab', 'a b', 'a12', '1', 'ab!', '(a)', 'a-b', 'a-b-a', 'b', 'aa', '12a', '1a', 'a 1', '((a', 'a-a', 'a1 2', 'ab1']
+WARM = ['', 'a', 'a,b', '[a]', '[ab', '[]', 'a,', 'a1', 'a1b', 'ab', 'a b', 'a12', '1', 'ab!', '(a)', 'a-b', 'a-b-a', 'b', 'aa', '12a', '1a', 'a 1', '((a', 'a-a', 'a1 2', 'ab1']
 
 
 def make_model(spec):
